@@ -467,6 +467,13 @@ fn states(name: String, params: Value) -> Scenario {
         let mut pids: Vec<u16> = sys.m.ops.iter().filter_map(|o| o.pid).collect();
         pids.sort();
         pids.dedup();
+        // identifiers that differ from a known one (and from 0, the ping's) by a multiple of 256: a
+        // lookup key that folds the packet type into the identifier's high byte confuses them
+        let p0 = pids.first().copied().unwrap_or(1);
+        for k in [1u16, 2, 3, 6, 9] {
+            pids.push(256 * k);
+            pids.push(p0 + 256 * k);
+        }
         pids.push(999);
         let mut menu: Vec<SPacket> = vec![];
         for &pid in &pids {
